@@ -267,7 +267,7 @@ Definition apply_sig_op (s : scte) (o : sig_op) : scte :=
   match o with
   | SSetTier v => with_tier s (v mod 4096)
   | SSetAdjustPTS v => with_pts s (v mod 8589934592)   (* 0b05886 *)
-  | SSetPTS v => with_cmd (with_pts s v) (s_cmd_type s) (apply_cmd_op (KSetPTS (v mod 8589934592)) (s_cmd s))
+  | SSetPTS v => with_cmd (with_pts s (v mod 8589934592)) (s_cmd_type s) (apply_cmd_op (KSetPTS (v mod 8589934592)) (s_cmd s))   (* a397833: s.pts truncated too *)
   | SSetHasPTS b => with_cmd s (s_cmd_type s) (apply_cmd_op (KSetHasPTS b) (s_cmd s))
   | SSetAlignmentStuffing v => with_stuffing s v
   | SSetCommandInfo k ops =>
